@@ -126,6 +126,31 @@ namespace verif {
       bool known(const T& x) const { return ids.count(dynamic_cast<const void*>(&x)) != 0; }
 
       std::size_t count() const { return thunks.size(); }
+
+      // The object is about to be destroyed (its storage may be recycled): its address no longer names it.  The name it had
+      // stays taken (observing it by name answers kind "?"); an object constructed later at that address gets a new name.
+      template<class T>
+      void forget(const T& x)
+      {
+         static_assert(std::is_polymorphic_v<T>, "only polymorphic objects have an identity here");
+         auto it = ids.find(dynamic_cast<const void*>(&x));
+         if (it == ids.end()) return;
+         thunks[it->second] = [](Observation& o) { o.kind = "?"; };
+         ids.erase(it);
+      }
+
+      // Everything first named at or after `mark` (= an earlier value of count()) is about to be destroyed with its owner.
+      void forget_since(std::size_t mark)
+      {
+         for (auto it = ids.begin(); it != ids.end(); ) {
+            if (it->second >= mark) {
+               thunks[it->second] = [](Observation& o) { o.kind = "?"; };
+               it = ids.erase(it);
+            }
+            else ++it;
+         }
+      }
+
       std::vector<std::string> names() const
       {
          std::vector<std::string> v;
